@@ -407,7 +407,7 @@ fn check_value(env: &Env, v: &Value, lc: &mut Local) {
     match parse_alone(v.rtype, &c) {
         Err(e) => env.viol(format!("C05|{t}|parse|panic|{}", panic_class(&e)), format!("parsing own compose of {} panicked: {e}", v.desc), case()),
         Ok(Err(e)) => env.viol(
-            format!("C05|{t}|parse(compose(v))|rejected|{}|{hint}", err_class(&e)),
+            format!("C05|{t}|parse(compose(v))|rejected|{hint}"), // the error wording is not part of the class
             format!("the parser rejects what compose_rdata wrote for the constructor-accepted value {}: {e}", v.desc),
             case(),
         ),
@@ -1260,7 +1260,7 @@ fn check_options(env: &Env, lc: &mut Local) {
                     false
                 }
                 Ok(Err(e)) => {
-                    env.viol(format!("C05|OPT|option-{cls}|parse(compose(v))|rejected|{}", err_class(e)), format!("[{via}] the option parser rejects what compose_option wrote for the constructor-accepted {}: {e}", it.tag), case());
+                    env.viol(format!("C05|OPT|option-{cls}|parse(compose(v))|rejected"), format!("[{via}] the option parser rejects what compose_option wrote for the constructor-accepted {}: {e}", it.tag), case());
                     false
                 }
                 Ok(Ok(list)) => {
